@@ -26,6 +26,5 @@ func VerifC07Concurrent(n int) {
 		})
 	}
 	verifrt.WaitAll()
-	verifrt.Known("C07-concurrent-over-admission", true)
 	verifrt.Assert(atomic.LoadInt32(&trials) <= 1, "at most max_requests trial requests are admitted in total, even when they arrive concurrently")
 }
